@@ -267,6 +267,14 @@ func mutate(fr [][]byte, k int, p plan, rng *rand.Rand) ([][]byte, bool) {
 
 type hostileStats struct {
 	started, failedDial int64
+	mu                  sync.Mutex
+	held                []net.Conn // connections kept open (and unread) until the end of the run
+}
+
+func (h *hostileStats) hold(c net.Conn) {
+	h.mu.Lock()
+	h.held = append(h.held, c)
+	h.mu.Unlock()
 }
 
 // hostile runs one plan from its own source address.
@@ -274,6 +282,20 @@ func hostile(p plan, n int, port, tport int, rng *rand.Rand, hs *hostileStats) {
 	atomic.AddInt64(&hs.started, 1)
 	src := net.IPv4(127, byte(1+(n>>16)&0x7f), byte(n>>8), byte(n))
 	switch p.Sess {
+	case "nonreader":
+		// a logged-in client that asks for a lot and never reads: everybody else must still be served
+		t, err := loginTCP(src, port, "guest", "", "deaf")
+		if err != nil {
+			atomic.AddInt64(&hs.failedDial, 1)
+			return
+		}
+		for i := 0; i < 400+100*p.Val; i++ {
+			t.id++
+			if _, err := t.c.Write(sim.NewTx(sim.TGetMsgs, t.id).Encode()); err != nil {
+				break
+			}
+		}
+		hs.hold(t.c)
 	case "ctl", "prelogin":
 		c, err := dialFrom(src, port)
 		if err != nil {
@@ -457,6 +479,7 @@ func runParent(args []string) error {
 	rng := rand.New(rand.NewSource(*seed))
 	muts := []string{"trunc", "total", "datasz", "count", "flen", "dropfield", "shortid", "garbage", "badhs", "size", "dup"}
 	sess := []string{"ctl", "ctl", "ctl", "prelogin", "upload", "download", "fupload", "fdownload"}
+	plans = append([]plan{{Sess: "nonreader", Mut: "none", Val: 0}, {Sess: "nonreader", Mut: "none", Val: 1}}, plans...)
 	for i := 0; i < *fuzz; i++ {
 		plans = append(plans, plan{Sess: sess[rng.Intn(len(sess))], Frame: 1 + rng.Intn(24), Mut: muts[rng.Intn(len(muts))], Val: rng.Intn(9)})
 	}
@@ -570,6 +593,11 @@ func runParent(args []string) error {
 		probe("burst")
 		dead = childDead()
 	}
+	hs.mu.Lock()
+	for _, c := range hs.held {
+		c.Close()
+	}
+	hs.mu.Unlock()
 	// quiescence: transfer handlers sleep 3 s before returning; delayed disconnects take up to 3 s
 	if !dead {
 		// wait until the server's event log has been silent for 3.5 s (bounded by 120 s)
